@@ -284,6 +284,66 @@ func runC19(res *lp.Result) {
 			res.Add(lp.Finding{Kind: "disagreement", What: "model/implementation differ on: " + lines[i], Input: lines[i], Impl: expect[i], Model: a, Detail: descr[i]})
 		}
 	}
+	c19CallerModifiesLists(res)
+}
+
+// c19CallerModifiesLists: the version checks must answer by the declared constants whatever callers did before — in
+// particular after a caller has modified a list of versions it was handed (filtering in place is ordinary Go). Every
+// list-returning function is called, the returned slice overwritten, and every version predicate and every list is
+// compared with what it was before; the slice is put back as it was afterwards. Runs last.
+func c19CallerModifiesLists(res *lp.Result) {
+	type listFn struct {
+		name string
+		f    func() []primitive.ProtocolVersion
+	}
+	v4 := primitive.ProtocolVersion4
+	fns := []listFn{
+		{"SupportedProtocolVersions", primitive.SupportedProtocolVersions},
+		{"SupportedOssProtocolVersions", primitive.SupportedOssProtocolVersions},
+		{"SupportedDseProtocolVersions", primitive.SupportedDseProtocolVersions},
+		{"SupportedBetaProtocolVersions", primitive.SupportedBetaProtocolVersions},
+		{"SupportedNonBetaProtocolVersions", primitive.SupportedNonBetaProtocolVersions},
+		{"SupportedProtocolVersionsGreaterThanOrEqualTo(4)", func() []primitive.ProtocolVersion { return primitive.SupportedProtocolVersionsGreaterThanOrEqualTo(v4) }},
+		{"SupportedProtocolVersionsGreaterThan(4)", func() []primitive.ProtocolVersion { return primitive.SupportedProtocolVersionsGreaterThan(v4) }},
+		{"SupportedProtocolVersionsLesserThanOrEqualTo(4)", func() []primitive.ProtocolVersion { return primitive.SupportedProtocolVersionsLesserThanOrEqualTo(v4) }},
+		{"SupportedProtocolVersionsLesserThan(4)", func() []primitive.ProtocolVersion { return primitive.SupportedProtocolVersionsLesserThan(v4) }},
+	}
+	snapshot := func() string {
+		var b strings.Builder
+		for v := 0; v < 256; v++ {
+			pv := primitive.ProtocolVersion(v)
+			fmt.Fprintf(&b, "%d:%v%v%v%v%v ", v, pv.IsSupported(), pv.IsOss(), pv.IsDse(), pv.IsBeta(), primitive.CheckSupportedProtocolVersion(pv) == nil)
+		}
+		for _, fn := range fns {
+			fmt.Fprintf(&b, "| %s=%v ", fn.name, fn.f())
+		}
+		return b.String()
+	}
+	before := snapshot()
+	for _, fn := range fns {
+		res.Case("caller overwrites the slice returned by "+fn.name, true)
+		res.Count("caller-modifies-list")
+		got := fn.f()
+		saved := append([]primitive.ProtocolVersion{}, got...)
+		for i := range got {
+			got[i] = primitive.ProtocolVersion(0xEE)
+		}
+		got = got[:0]
+		after := snapshot()
+		copy(got[:len(saved)], saved) // put it back as it was
+		if after != before {
+			diff := ""
+			bf, af := strings.Fields(before), strings.Fields(after)
+			for i := range bf {
+				if i < len(af) && bf[i] != af[i] {
+					diff = "was " + bf[i] + ", now " + af[i]
+					break
+				}
+			}
+			res.Add(lp.Finding{Kind: "violation", What: "after a caller overwrote the slice returned by " + fn.name + ", the version checks answer differently for declared constants",
+				Input: "call " + fn.name + "(); overwrite every element of the result; ask IsSupported/IsOss/IsDse/IsBeta/CheckSupportedProtocolVersion for all 256 versions and the lists again", Impl: diff})
+		}
+	}
 }
 
 func hexOrDash(s string) string {
